@@ -28,6 +28,7 @@ type Scenario struct {
 	Exhaust bool       `json:"exhaustive,omitempty"`
 	Expect  *Violation `json:"expect,omitempty"` // replay: the violation this file reproduces
 	Note    string     `json:"note,omitempty"`
+	NoDrain bool       `json:"no_drain,omitempty"` // stop when the last client is done (the clock legitimately outlives the run)
 }
 
 type ReSpec struct {
